@@ -122,6 +122,8 @@ def analyze(drv, prog, fn="main", dedup=True, consts="-", const_values=None, cap
         inputs = enc.Inputs(circ.inputs)
         outs = enc.encode_ssa(circ, inputs)
         res["vectors_validated"] = validate_encoder(drv, cid, circ, inputs, outs, rng, vectors)
+        if keep:
+            res["_circ"], res["_inputs"], res["_outs"] = circ, inputs, outs
         has_c, rec_c, val_bits = enc.split_panic(outs)
         it = ref.Interp(prog, const_values)
         args, assume = ref.param_values(prog, fn, inputs.bv)
@@ -205,3 +207,57 @@ def miter(outs_a, outs_b, assume, cap, stats):
         return "unsat", None
     verdict, model, dt, backend = solve.decide(list(assume) + [z3.Or(*diffs) if len(diffs) > 1 else diffs[0]], cap, stats)
     return verdict, model
+
+
+def register_check(drv, cid, circ, inputs, outs, cap, stats, src=None, dedup=None):
+    """Convert the compiled SSA circuit with the real From<&SsaCircuit>, encode the register program
+    by symbolic simulation and compare all outputs for all inputs. -> (verdict, violations, nonrepro, info)"""
+    r = drv.toreg(cid)
+    viol, nonrepro = [], []
+    if r[0] != "ok":
+        return "conversion-failed", [{"key": "register-conversion-%s" % r[0], "text": "to_register: %s" % (r,),
+                                      "replay": {"source": src, "dedup": dedup}}], [], {}
+    _, rc, validity = r
+    info = {"insts": len(rc.insts), "max_reg": rc.max_reg, "validity": validity}
+    problems = []
+    if validity != "valid":
+        problems.append("register validate(): %s" % validity)
+    if list(rc.inputs) != list(circ.inputs):
+        problems.append("input_regs %s != input_gates %s" % (rc.inputs, circ.inputs))
+    if rc.and_ops != circ.and_count():
+        problems.append("and_ops %d != AND gates %d" % (rc.and_ops, circ.and_count()))
+    wires = circ.n_inputs + len(circ.gates)
+    used = [x for inst in rc.insts for x in inst[1:2]] + list(rc.outputs)
+    hi = max([inst[1] for inst in rc.insts] + [x for inst in rc.insts if inst[0] != "I" for x in inst[2:]] + list(rc.outputs) + [0])
+    if rc.max_reg < hi + 1:
+        problems.append("max_reg_count %d < highest register + 1 = %d" % (rc.max_reg, hi + 1))
+    if rc.max_reg > wires:
+        problems.append("max_reg_count %d exceeds the number of wires %d" % (rc.max_reg, wires))
+    # input instructions first, in party order
+    k = 0
+    for p, n in enumerate(circ.inputs):
+        for i in range(n):
+            inst = rc.insts[k] if k < len(rc.insts) else None
+            if inst is None or inst[0] != "I" or inst[1] != k or inst[2] != p or inst[3] != i:
+                problems.append("instruction %d is %s, expected Input{party %d, input %d} into register %d" % (k, inst, p, i, k))
+            k += 1
+    outs_r, undefined = enc.encode_reg(rc, inputs)
+    if undefined:
+        problems.append("registers read before being written: %s" % undefined[:5])
+    for pr in problems:
+        viol.append({"key": "register-structure", "text": pr, "replay": {"source": src, "dedup": dedup, "register_circuit": rc.text[:4000]}})
+    verdict, model = miter(outs, outs_r, [], cap, stats)
+    if verdict == "sat":
+        parties = inputs.party_values(model)
+        a = drv.eval(cid, parties)
+        b = drv.evalr(rc.text, parties)
+        det = {"inputs": bits_str(parties), "ssa_output": "".join(map(str, a)), "register_output": str(b) if isinstance(b, tuple) else "".join(map(str, b)),
+               "source": src, "dedup": dedup}
+        if a != b:
+            viol.append({"key": "register-function", "text": "register circuit and SSA circuit differ on inputs %s" % det["inputs"], "replay": det})
+        else:
+            nonrepro.append(det)
+    elif verdict == "shape":
+        viol.append({"key": "register-structure", "text": "register circuit has %d outputs, SSA %d" % (len(outs_r), len(outs)),
+                     "replay": {"source": src, "dedup": dedup}})
+    return verdict, viol, nonrepro, info
